@@ -334,3 +334,48 @@ def pss_verify(em_int_bytes, mhash, embits, slen, h='sha1'):
         return False
     salt = bytes(db[-slen:]) if slen else b''
     return hashlib.new(h, b'\x00' * 8 + mhash + salt).digest() == hh
+
+
+# ------------------------------------------------------------------------------- NIST P-256 (ECDH reference)
+P256_P = 0xffffffff00000001000000000000000000000000ffffffffffffffffffffffff
+P256_A = P256_P - 3
+P256_B = 0x5ac635d8aa3a93e7b3ebbd55769886bc651d06b0cc53b0f63bce3c3e27d2604b
+P256_N = 0xffffffff00000000ffffffffffffffffbce6faada7179e84f3b9cac2fc632551
+P256_G = (0x6b17d1f2e12c4247f8bce6e563a440f277037d812deb33a0f4a13945d898c296,
+          0x4fe342e2fe1a7f9b8ee7eb4a7c0f9e162bce33576b315ececbb6406837bf51f5)
+
+
+def p256_add(P, Q):
+    if P is None:
+        return Q
+    if Q is None:
+        return P
+    (x1, y1), (x2, y2) = P, Q
+    if x1 == x2 and (y1 + y2) % P256_P == 0:
+        return None
+    if P == Q:
+        l = (3 * x1 * x1 + P256_A) * pow(2 * y1, -1, P256_P) % P256_P
+    else:
+        l = (y2 - y1) * pow(x2 - x1, -1, P256_P) % P256_P
+    x3 = (l * l - x1 - x2) % P256_P
+    return (x3, (l * (x1 - x3) - y1) % P256_P)
+
+
+def p256_mul(k, P):
+    R = None
+    while k:
+        if k & 1:
+            R = p256_add(R, P)
+        P = p256_add(P, P)
+        k >>= 1
+    return R
+
+
+def p256_point_bytes(P):
+    return b'\x04' + P[0].to_bytes(32, 'big') + P[1].to_bytes(32, 'big')
+
+
+def ecdh_p256(d, Q):
+    """the shared secret of ECDH (cofactor 1): the x coordinate of d*Q, 32 octets"""
+    S = p256_mul(d, Q)
+    return S[0].to_bytes(32, 'big')
